@@ -383,6 +383,7 @@ func (c *Ctx) ImportRules(prop string) {
 	// ---- O4 parse: every number recorded from the file is a validated, non-negative parse result
 	rule4 := "C10.O4 parse"
 	np := 0
+	ordinal := map[string]int{}
 	for _, fn := range fns {
 		if _, isRaise := raises[fn]; isRaise {
 			continue
@@ -407,11 +408,13 @@ func (c *Ctx) ImportRules(prop string) {
 					continue
 				}
 				np++
+				ordinal[Fn(fn)+":"+fld]++
+				okey := fmt.Sprintf("%s:%s#%d", Fn(fn), fld, ordinal[Fn(fn)+":"+fld])
 				why, path := c.validatedNumber(val, fn, st, 0)
 				if why != "" {
-					c.R.Fail(rule4, Fn(fn)+":"+fld+"@"+c.Pos(st), c.Pos(st), "the value recorded as "+fld+" "+why, "numbers from the file are used only below [parse err == nil] and proven to lie in [0, 2^63)", path)
+					c.R.Fail(rule4, okey, c.Pos(st), "the value recorded as "+fld+" "+why, "numbers from the file are used only below [parse err == nil] and proven to lie in [0, 2^63)", path)
 				} else {
-					c.R.OK(rule4, Fn(fn)+":"+fld+"@"+c.Pos(st), c.Pos(st), "recorded value is a parse result used below [err == nil] and proven non-negative / within int64")
+					c.R.OK(rule4, okey, c.Pos(st), "recorded value is a parse result used below [err == nil] and proven non-negative / within int64")
 				}
 			}
 		}
